@@ -28,6 +28,13 @@ def _pkg(rng, nw):
     pkg['wav'] = wav
     if rng.random() < 0.5:
         pkg['wav_dtype'] = 'float32'       # (every wavelength drawn here is a single-precision number)
+        if rng.random() < 0.5:
+            # the WAVELENGTH column of the files in Angstrom, whole multiples of 100 Angstrom (single-precision numbers); in micron these
+            # wavelengths (0.6, 1.2, ...) are not single-precision numbers
+            pkg['wav_file_unit'] = 'Angstrom'
+            ks = sorted(set(rng.randint(30, 3000) for _ in range(nw * 3)))[:nw]
+            if len(ks) == nw:
+                pkg['wav'] = [k / 100.0 for k in ks]
     pkg['nu'] = pkg['nu'][:nw] if len(pkg['nu']) >= nw else pkg['nu']
     for n in pkg['names']:   # flux rows must have nw entries
         sd = pkg['seds'][n]
